@@ -31,7 +31,40 @@ impl Group {
     }
 }
 
+thread_local! {
+    static WRITTEN: std::cell::RefCell<std::collections::BTreeSet<PathBuf>> = std::cell::RefCell::new(Default::default());
+}
+
+/// generated sources of an earlier run (other tier parameters, excluded groups) that were not written this time
+fn remove_stale_sources(out: &Path) {
+    fn walk(dir: &Path, keep: &std::collections::BTreeSet<PathBuf>) {
+        if let Ok(rd) = std::fs::read_dir(dir) {
+            for e in rd.flatten() {
+                let p = e.path();
+                if p.is_dir() {
+                    walk(&p, keep);
+                    let _ = std::fs::remove_dir(&p); // only succeeds when empty
+                } else if !keep.contains(&p) {
+                    let _ = std::fs::remove_file(&p);
+                }
+            }
+        }
+    }
+    WRITTEN.with(|w| {
+        let keep = w.borrow();
+        if let Ok(rd) = std::fs::read_dir(out) {
+            for e in rd.flatten() {
+                let p = e.path();
+                if p.is_dir() && p.file_name().map(|n| n.to_string_lossy().starts_with("shard_")).unwrap_or(false) {
+                    walk(&p.join("src"), &keep);
+                }
+            }
+        }
+    });
+}
+
 fn write_if_changed(path: &Path, content: &str) {
+    WRITTEN.with(|w| w.borrow_mut().insert(path.to_path_buf()));
     if let Ok(old) = std::fs::read_to_string(path) {
         if old == content {
             return;
@@ -182,6 +215,7 @@ fn main() {
             "c09kw" => families::c09_keywords(&mut groups),
             "c09col" => families::c09_collisions(&mut groups),
             "c09const" => families::c09_consts(&mut groups),
+            "c09int" => families::c09_intforms(&mut groups),
             "c09rand" => families::c09_random(&mut groups, &mut rng, &tier),
             other => eprintln!("unknown family {}", other),
         }
@@ -334,6 +368,7 @@ fn main() {
     if compile_only {
         write_if_changed(&out.join("groups.json"), &serde_json::to_string(&group_index).unwrap());
     }
+    remove_stale_sources(&out);
     write_if_changed(
         &out.join("schema.json"),
         &serde_json::to_string(&json!({"tier": tier, "seed": seed, "universes": universes, "types": types, "rejected": rejected, "protos": protos})).unwrap(),
